@@ -9,13 +9,19 @@
 package c04
 
 import (
+	"encoding/json"
 	"fmt"
+	"net/http"
+	"net/url"
 	"reflect"
+	"regexp"
 	"sort"
+	"strings"
 
 	"github.com/google/pprof/profile"
 
 	"github.com/google/pprof/verifh/ap"
+	"github.com/google/pprof/verifh/c18"
 	"github.com/google/pprof/verifh/drive"
 	"github.com/google/pprof/verifh/enum"
 	"github.com/google/pprof/verifh/model"
@@ -110,6 +116,10 @@ func Flags(c model.Cfg) []string {
 
 // Run is the check.
 func Run(c *vk.Ctx) {
+	if !c.Thorough() {
+		// quick: mixed signs, cancelling, zero divisor, zero selected value; thorough: all five
+		valuePairs = [][2][]int64{valuePairs[0], valuePairs[1], valuePairs[2], valuePairs[4]}
+	}
 	sigma := enum.Sigma6
 	shapes := enum.Shapes(sigma, 2)
 	cfgs := Configs()
@@ -126,7 +136,7 @@ func Run(c *vk.Ctx) {
 	if c.Thorough() {
 		maxSum = 4
 	}
-	c.Note(fmt.Sprintf("alphabet=%d kinds, shapes(depth<=2)=%d, pairs with total depth<=%d, configs=%d, value pairs=%d, output forms=7 (top tree peek dot dot+call_tree traces topproto)", len(sigma), len(shapes), maxSum, len(cfgs), len(valuePairs)))
+	c.Note(fmt.Sprintf("alphabet=%d kinds, shapes(depth<=2)=%d, pairs with total depth<=%d, configs=%d, value pairs=%d, output forms=10 (top tree peek dot dot+call_tree traces topproto callgrind callgrind+call_tree web/top)", len(sigma), len(shapes), maxSum, len(cfgs), len(valuePairs)))
 	var idx int64
 	for i := range shapes {
 		if c.Mine(idx) {
@@ -183,6 +193,7 @@ func checkProfile(c *vk.Ctx, sigma []enum.Kind, s1, s2 enum.Shape, v int, cfgs [
 	if c.WantSample() {
 		c.Sample(cs)
 	}
+	webH := drive.Web(data, []string{"p"}).Handlers
 	for _, cfg := range cfgs {
 		ref := model.Report(a, cfg)
 		cs.Cfg = cfg.String()
@@ -219,6 +230,7 @@ func checkProfile(c *vk.Ctx, sigma []enum.Kind, s1, s2 enum.Shape, v int, cfgs [
 			c.Count("unparsed/tree", 1)
 		}
 		checkOthers(c, cs, a, cfg, ref, data, fl)
+		checkCallgrindAndWeb(c, cs, a, cfg, ref, data, webH)
 		if nontrivial {
 			c.Nontrivial(cs.S1 + "/" + cs.S2 + fmt.Sprint(cs.V) + cs.Cfg)
 		}
@@ -415,6 +427,157 @@ func checkOthers(c *vk.Ctx, cs Case, a *ap.AP, cfg model.Cfg, ref *model.Rep, da
 			c.Violationf("topproto/entries"+classSuffix(a, cfg), cs, "want (flat,cum) %v got %v", wantFC, got)
 		}
 	}
+}
+
+// checkCallgrindAndWeb observes the callgrind report (graph and call-tree mode)
+// through C18's independent reader, and the web UI's /top page.
+func checkCallgrindAndWeb(c *vk.Ctx, cs Case, a *ap.AP, cfg model.Cfg, ref *model.Rep, data map[string][]byte, h map[string]http.Handler) {
+	// callgrind forces granularity "addresses" and keeps the binary in the identity
+	for _, tree := range []bool{false, true} {
+		c.Eval()
+		cg := cfg
+		cg.Gran, cg.ObjNames, cg.CallTree = "addresses", true, tree
+		rr := model.Report(a, cg)
+		cs.Out = "callgrind"
+		if tree {
+			cs.Out = "callgrind,call_tree"
+		}
+		fl := Flags(cg)
+		r := drive.Report(data, []string{"p"}, append([]string{"callgrind"}, fl[1:]...)...) // fl[0] is the granularity flag
+		if !checkRun(c, cs, r) {
+			continue
+		}
+		flats, edges, ok := c18.ReadCallgrindNumbers(r.Out)
+		if !ok {
+			c.Count("unparsed/callgrind", 1)
+			continue
+		}
+		type frow struct {
+			fn, fl   string
+			addr, ln uint64
+			cost     int64
+		}
+		var got, want []frow
+		for _, f := range flats {
+			got = append(got, frow{f.Fn, f.Fl, f.Addr, f.Line, f.Cost})
+		}
+		for _, e := range rr.Entries {
+			want = append(want, frow{e.Key.Name, e.Key.File, e.Key.Addr, uint64(e.Key.Line), e.FlatValue()})
+		}
+		less := func(x []frow) func(i, j int) bool {
+			return func(i, j int) bool { return fmt.Sprint(x[i]) < fmt.Sprint(x[j]) }
+		}
+		sort.Slice(got, less(got))
+		sort.Slice(want, less(want))
+		if !reflect.DeepEqual(got, want) && !(len(got) == 0 && len(want) == 0) {
+			c.Violationf(cs.Out+"/entries"+classSuffix(a, cfg), cs, "want (fn file addr line flat) %v\n got %v\n%s", want, got, r.Out)
+			continue
+		}
+		type erow struct {
+			fn, cfn string
+			w       int64
+		}
+		var ge, we []erow
+		for _, e := range edges {
+			cfn := e.Cfn
+			if m := cgSuffixRE.FindStringSubmatch(cfn); m != nil {
+				cfn = m[1] // " [i/n]" disambiguates call-tree nodes that share (file, function)
+			}
+			ge = append(ge, erow{e.Fn, cfn, e.Cost})
+		}
+		for _, e := range rr.Edges {
+			we = append(we, erow{e.Src.Name, e.Dst.Name, e.Value()})
+		}
+		lessE := func(x []erow) func(i, j int) bool {
+			return func(i, j int) bool { return fmt.Sprint(x[i]) < fmt.Sprint(x[j]) }
+		}
+		sort.Slice(ge, lessE(ge))
+		sort.Slice(we, lessE(we))
+		if !reflect.DeepEqual(ge, we) && !(len(ge) == 0 && len(we) == 0) {
+			c.Violationf(cs.Out+"/edges"+classSuffix(a, cfg), cs, "want (caller callee weight) %v\n got %v\n%s", we, ge, r.Out)
+		}
+	}
+	// web /top: entries embedded as JSON in the page
+	if h != nil {
+		c.Eval()
+		cs.Out = "web/top"
+		q := url.Values{}
+		q.Set("g", cfg.Gran)
+		q.Set("si", fmt.Sprint(cfg.SI))
+		if cfg.NoInlines {
+			q.Set("noinlines", "t")
+		}
+		if cfg.ShowCols {
+			q.Set("showcolumns", "t")
+		}
+		if cfg.Mean {
+			q.Set("mean", "t")
+		}
+		if cfg.TagRoot != "" {
+			q.Set("tagroot", cfg.TagRoot)
+		}
+		if cfg.TagLeaf != "" {
+			q.Set("tagleaf", cfg.TagLeaf)
+		}
+		q.Set("nf", "0")
+		q.Set("ef", "0")
+		code, body, pan := drive.Get(h, "GET", "/top?"+q.Encode())
+		if pan != nil {
+			c.Violationf("panic/web-top", cs, "%v", pan)
+			return
+		}
+		if code != 200 {
+			c.Violationf("error/web-top", cs, "status %d: %.200s", code, body)
+			return
+		}
+		rows, ok := webTopRows(body)
+		if !ok {
+			c.Count("unparsed/web-top", 1)
+			return
+		}
+		model.SortRows(rows)
+		want := ref.Rows()
+		if !reflect.DeepEqual(rows, want) && !(len(rows) == 0 && len(want) == 0) {
+			c.Violationf("web-top/entries"+classSuffix(a, cfg), cs, "want %v\n got %v", want, rows)
+		}
+	}
+}
+
+var cgSuffixRE = regexp.MustCompile(`^(.*?) ?\[\d+/\d+\]$`)
+
+// webTopRows extracts the entries the /top page hands to its table builder.
+func webTopRows(body []byte) ([]model.Row, bool) {
+	s := string(body)
+	i := strings.Index(s, "makeTopTable(")
+	if i < 0 {
+		return nil, false
+	}
+	s = s[i+len("makeTopTable("):]
+	// skip the definition "function makeTopTable(total, entries)"
+	if strings.HasPrefix(s, "total,") {
+		j := strings.Index(s, "makeTopTable(")
+		if j < 0 {
+			return nil, false
+		}
+		s = s[j+len("makeTopTable("):]
+	}
+	k := strings.Index(s, ",")
+	e := strings.Index(s, ");")
+	if k < 0 || e < k {
+		return nil, false
+	}
+	var items []struct {
+		Name      string
+		Flat, Cum int64
+	}
+	if err := json.Unmarshal([]byte(strings.TrimSpace(s[k+1:e])), &items); err != nil {
+		return nil, false
+	}
+	var rows []model.Row
+	for _, it := range items {
+		rows = append(rows, model.Row{Name: it.Name, Flat: it.Flat, Cum: it.Cum})
+	}
+	return rows, true
 }
 
 func sortFC(x [][2]int64) {
